@@ -6,6 +6,8 @@ CONSTANTS
   Schemes <- TSchemes
   MaxSteps = 1000000
   StaleGridBug = FALSE
+INVARIANT GeneratorNotStale
+INVARIANT EvaluationSucceeds
 INVARIANT GridAttrsAsSpecified
 INVARIANT ClassesAsSpecified
 INVARIANT GridObjectReplacedIffSpec
